@@ -54,6 +54,33 @@ theorem sliceView_ok (s : State) (b : Nat) (hb : b < s.blocks.length) (i j : Opt
                len := (sliceIdx (s.read b).length i j st).2 } :=
   ⟨hb, hst, fun k hk => slice_in_bounds (s.read b).length i j st hst k hk⟩
 
+theorem foldl_set_length {α : Type} (l : List α) (idx : List Nat) (pos : Nat → Nat) (val : Nat → α) :
+    (idx.foldl (fun m j => m.set (pos j) (val j)) l).length = l.length := by
+  induction idx generalizing l with
+  | nil => rfl
+  | cons a as ih => simp only [List.foldl_cons]; rw [ih, List.length_set]
+
+theorem stridedMem_length (st : Int) (L : List Int) : (stridedMem st L).1.length = max 1 (L.length * st.natAbs) := by
+  unfold stridedMem
+  simp only []
+  rw [foldl_set_length]
+  simp
+
+/-- the strided layouts of fresh buffer objects stay inside their memory -/
+theorem stridedMem_bounds (lay : Lay) (A : List Int) :
+    lay.stride ≠ 0 ∧ ∀ j, j < A.length →
+      0 ≤ (stridedMem lay.stride A).2 + (j : Int) * lay.stride ∧
+      (stridedMem lay.stride A).2 + (j : Int) * lay.stride < ((stridedMem lay.stride A).1.length : Int) := by
+  refine ⟨by cases lay <;> simp [Lay.stride], ?_⟩
+  intro j hj
+  rw [stridedMem_length]
+  have n1 : Int.natAbs 1 = 1 := rfl
+  have n2 : Int.natAbs 2 = 2 := rfl
+  have n3 : Int.natAbs 3 = 3 := rfl
+  have m1 : Int.natAbs (-1) = 1 := rfl
+  have m2 : Int.natAbs (-2) = 2 := rfl
+  cases lay <;> simp only [Lay.stride, stridedMem, n1, n2, n3, m1, m2] <;> omega
+
 /-- unfold the plain operations down to `zipWith` / `map` and close the length side condition -/
 macro "fvlen" h:ident : tactic => `(tactic| (
   try simp only [vadd, vsub, vscale, vneg, pyMul, pyNeg, pyRsubZero, vdivExact, vaddScalar, vsubScalar, Kind.construct]
@@ -246,18 +273,17 @@ theorem vecEff_ok (kd : Kind) (hk : kd.isVec = true) (s : State) (h : Inv kd s) 
     repeat' split
     all_goals trivial
   | nscale a k =>
-    simp only [vecEff]
+    simp only [vecEff, nvWrite]
     repeat' split
     all_goals try trivial
     all_goals exact ⟨⟨a, by assumption⟩, by simp [vscale, viewVals_length]⟩
   | nset a i k =>
-    simp only [vecEff]
+    simp only [vecEff, nvWriteCell]
     repeat' split
     all_goals try trivial
     all_goals (
-      rename_i hc
       refine ⟨⟨a, by assumption⟩, ?_⟩
-      simp only [Bool.or_eq_true, decide_eq_true_eq, not_or] at hc
+      simp only [Bool.or_eq_true, decide_eq_true_eq, not_or] at *
       omega)
   | nget a i =>
     simp only [vecEff]
@@ -268,24 +294,22 @@ theorem vecEff_ok (kd : Kind) (hk : kd.isVec = true) (s : State) (h : Inv kd s) 
     repeat' split
     all_goals trivial
   | naxpy a k b =>
-    simp only [vecEff]
+    simp only [vecEff, nvWrite]
     repeat' split
     all_goals try trivial
     all_goals (
-      rename_i hlen _ _
       refine ⟨⟨a, by assumption⟩, ?_⟩
       simp only [vadd, vscale, List.length_zipWith, List.length_map, viewVals_length]
-      simp only [Bool.or_eq_true, bne_iff_ne, ne_eq, not_or, Decidable.not_not] at hlen
+      simp only [Bool.or_eq_true, bne_iff_ne, ne_eq, not_or, Decidable.not_not] at *
       omega)
   | nadd a b =>
-    simp only [vecEff]
+    simp only [vecEff, nvWrite]
     repeat' split
     all_goals try trivial
     all_goals (
-      rename_i hlen _ _
       refine ⟨⟨a, by assumption⟩, ?_⟩
       simp only [vadd, List.length_zipWith, viewVals_length]
-      simp only [bne_iff_ne, ne_eq, Decidable.not_not] at hlen
+      simp only [bne_iff_ne, ne_eq, Decidable.not_not] at *
       omega)
   | nnew a b k =>
     simp only [vecEff]
@@ -295,8 +319,18 @@ theorem vecEff_ok (kd : Kind) (hk : kd.isVec = true) (s : State) (h : Inv kd s) 
     simp only [vecEff]
     repeat' split
     all_goals trivial
-  | nrun a =>
+  | ndt a b dt lay special =>
     simp only [vecEff]
+    repeat' split
+    all_goals try trivial
+    all_goals exact stridedMem_bounds lay _
+  | nvscale x k =>
+    simp only [vecEff]
+    repeat' split
+    all_goals try trivial
+    all_goals (refine writeB_ok hk h (by assumption) ?_; fvlen h)
+  | nrun a =>
+    simp only [vecEff, nvWrite]
     repeat' split
     all_goals try trivial
     all_goals exact ⟨⟨a, by assumption⟩, by simp [viewVals_length]⟩
